@@ -24,7 +24,29 @@ ASSUMPTIONS = ["that a dead thread implies a reaped child (kill + communicate in
 TRUSTED = ["CPython threading / queue (the fake child replaces only subprocess handling)"]
 
 
-def real_run(k, n, order, verbose, lines, dots):
+class SlowRaw(io.RawIOBase):
+    """the parent's stdout with a slow reader behind it: every write takes a while, and a write that carries a
+    line of child i tells child i so (a child may then finish *while* the parent is writing)"""
+
+    def __init__(self, writing):
+        self.data = bytearray()
+        self.writing = writing
+
+    def writable(self):
+        return True
+
+    def write(self, b):
+        b = bytes(b)
+        self.data += b
+        for m in re.finditer(rb"LINE (\d+) ", b):
+            i = int(m.group(1))
+            if i < len(self.writing):
+                self.writing[i].set()
+        time.sleep(0.06)
+        return len(b)
+
+
+def real_run(k, n, order, verbose, lines, dots, late=None):
     from zope.testrunner import runner
     names = ["wl.L%d" % i for i in range(k)]
     gates = [threading.Event() for _ in range(k)]
@@ -46,6 +68,12 @@ def real_run(k, n, order, verbose, lines, dots):
                 result.write(("LINE %d %d\n" % (i, ln)).encode())
             started[i].set()
             gates[i].wait(30)
+            if late:
+                # finish exactly while the parent is busy writing this child's earlier lines (if it ever does
+                # that before the child is done), appending the last lines of the layer
+                writing[i].wait(0.25)
+                for ln in late[i]:
+                    result.write(("LINE %d %d\n" % (i, ln)).encode())
             result.num_ran = 10 + i
         finally:
             with lock:
@@ -55,7 +83,8 @@ def real_run(k, n, order, verbose, lines, dots):
     options = types.SimpleNamespace(processes=n, verbose=verbose, subunit=False, subunit_v2=False,
                                     stop_on_error=False)
     layers = [(names[i], object(), None) for i in range(k)]
-    raw = io.BytesIO()
+    writing = [threading.Event() for _ in range(k)]
+    raw = SlowRaw(writing) if late else io.BytesIO()
     out = io.TextIOWrapper(raw, encoding="utf-8", write_through=True)
     res = {}
     old_spawn = runner.spawn_layer_in_subprocess
@@ -115,7 +144,7 @@ def real_run(k, n, order, verbose, lines, dots):
         runner.spawn_layer_in_subprocess = old_spawn
         sys.stdout = old_stdout
     out.flush()
-    res["stdout"] = raw.getvalue().decode("utf-8", "replace")
+    res["stdout"] = (bytes(raw.data) if late else raw.getvalue()).decode("utf-8", "replace")
     res.update(stat)
     return res
 
@@ -172,6 +201,30 @@ def run(ctx):
     import concurrent.futures
     # the fake replaces a module attribute: real runs are sequential
     reals = [real_run(*c) for c in full]
+    # a slow reader behind the parent's stdout and children that finish (with more output) at that very moment
+    late_cases = []
+    for _ in range(4 if ctx.quick() else 40):
+        k = rng.choice([2, 3])
+        n = rng.choice([2, 3])
+        order = list(range(k))
+        rng.shuffle(order)
+        lines = [[rng.randint(1, 999) for _ in range(rng.choice([2, 3]))] for _ in range(k)]
+        late = [[rng.randint(1000, 1999) for _ in range(2)] for _ in range(k)]
+        late_cases.append((k, n, order, 0, lines, False, late))
+    for (k, n, order, verbose, lines, dots, late) in late_cases:
+        res = real_run(k, n, order, verbose, lines, dots, late=late)
+        case = {"k": k, "N": n, "finish_order": order, "lines": lines, "late_lines": late,
+                "real": {kk: res.get(kk) for kk in ("total", "max", "hung", "exc")}, "stdout": res.get("stdout", "")[-800:]}
+        ctx.count(("late", k, n, tuple(order), str(lines)), nontrivial=True, sample=None)
+        ctx.bump("slow-reader")
+        if res.get("hung") or res.get("exc"):
+            ctx.violation("resume_tests did not return (%r) with a slow reader" % res.get("exc"), case, signature="C06:hang")
+            continue
+        got = [(int(a), int(b)) for a, b in re.findall(r"LINE (\d+) (\d+)", res["stdout"])]
+        want = [(i, ln) for i in range(k) for ln in lines[i] + late[i]]
+        if got != want:
+            ctx.violation("with a slow reader the parent printed %r, the children wrote %r (contiguous blocks in layer "
+                          "order expected)" % (got, want), case, signature="C06:lost-lines")
     answers = ctx.driver.batch([{"op": "sched", "n": c[1], "k": c[0], "labels": model_schedule(c[0], c[1], c[2], c[4])}
                                 for c in full])
     for (k, n, order, verbose, lines, dots), res, ans in zip(full, reals, answers):
